@@ -149,12 +149,14 @@ func parseSegments(version string) ([]segment, error) {
 
 	// Add prerelease segments
 	if prereleasePart != "" {
-		// "-" means ".pre." (Gem::Version): 1.0.0-alpha.1 is 1.0.0.pre.alpha.1
-		segments = append(segments, createSegment("pre"))
-		prereleaseParts := strings.Split(prereleasePart, ".")
-		for _, part := range prereleaseParts {
-			if part != "" {
-				segments = append(segments, createSegment(part))
+		// every "-" means ".pre." (Gem::Version): 1.0.0-alpha.1 is 1.0.0.pre.alpha.1 and
+		// 1.0-a-b is 1.0.pre.a.pre.b
+		for _, group := range strings.Split(prereleasePart, "-") {
+			segments = append(segments, createSegment("pre"))
+			for _, part := range strings.Split(group, ".") {
+				if part != "" {
+					segments = append(segments, createSegment(part))
+				}
 			}
 		}
 	}
